@@ -23,7 +23,7 @@ func newStorage(l atree.BaseStorage) *atree.PersistentSlabStorage {
 	must(err)
 	decMode, err := cbor.DecOptions{}.DecMode()
 	must(err)
-	return atree.NewPersistentSlabStorage(l, encMode, decMode, testutils.DecodeStorable, testutils.DecodeTypeInfo)
+	return atree.NewPersistentSlabStorage(l, encMode, decMode, testutils.DecodeStorable, decodeTypeInfo)
 }
 
 func encMode() cbor.EncMode {
